@@ -170,3 +170,24 @@ Proof.
   - exists (bs "gzip"). eexists. repeat split; try (vm_compute; reflexivity); vm_compute; discriminate.
   - exists (bs "x-custom"). eexists. repeat split; try (vm_compute; reflexivity); vm_compute; discriminate.
 Qed.
+
+(* ---------- why the decoder must be installed exactly once, and the body read to io.EOF ---------- *)
+
+(* a latin-1-like toy charset: a byte >= 0x80 becomes the two bytes C3 b (both >= 0x80 again) *)
+Definition toy2_dec (s : bytes) : bytes := flat_map (fun b => if is_hi b then [xc3; b] else [b]) s.
+Definition toy2_dec_all (_ : unit) (s : bytes) : bytes := toy2_dec s.
+Definition toy2_dec_stream (_ : unit) (chunks : list bytes) : bytes := toy2_dec (concat chunks).
+
+(* transcoding the transcoded text once more is neither the original nor its transcoding; and the
+   transcoding is longer than the original, so a reader that stops at the original (declared) length
+   cuts it *)
+Theorem decode_twice_or_cut_is_a_third_result :
+  exists (enc : Type) (dec_all : enc -> bytes -> bytes) (dec_stream : enc -> list bytes -> bytes) (e : enc) (body : bytes),
+    decoder_ok dec_all dec_stream /\
+    dec_all e (dec_all e body) <> body /\ dec_all e (dec_all e body) <> dec_all e body /\
+    length body < length (dec_all e body) /\
+    firstn (length body) (dec_all e body) <> body /\ firstn (length body) (dec_all e body) <> dec_all e body.
+Proof.
+  exists unit, toy2_dec_all, toy2_dec_stream, tt, (bs "caf" ++ [xe9]).
+  split; [intros e cs; reflexivity|]. vm_compute. repeat split; try discriminate. auto.
+Qed.
